@@ -112,3 +112,14 @@ Theorem C11_bandwidth_bound_partial : forall bps n d,
   bps <= bps * d / n <= 5 * bps / 4.
 Proof. exact bandwidth_bound_q. Qed.
 Print Assumptions C11_bandwidth_bound_partial.
+
+(* Parts 1 and 2 fit together: after ANY call history the sender's pacer is exactly the pacer-level
+   state reached by the induced send history (each OnPacketSent with the bandwidth
+   trunc(float(bps)/ackRate) and the datagram size in force at that moment), so
+   C11_rate_upper_bound, C11_wakeup_suffices and C11_rearm_progress apply to the sender with
+   bw = bandwidth b. *)
+Theorem C11_sender_drives_pacer : forall bps dis l,
+  let b := brun (brutal_init bps dis) l in
+  b_pacer b = set_mds (prun pacer_init (psends_of (brutal_init bps dis) l)) (b_mds b).
+Proof. exact pacer_of_brun_init. Qed.
+Print Assumptions C11_sender_drives_pacer.
